@@ -373,7 +373,7 @@ func (ex *Exec) staticAssignHeaps(fc *FuncContract, callee *ssa.Function, c *ssa
 		}
 		if pkg != nil {
 			if _, ok := pkg.Scope().Lookup(x.Name).(*types.Var); ok {
-				return []string{"G_" + sanitize(pkg.Name()+"_"+x.Name)}, false
+				return []string{"G_" + sanitize(pkgQualifier(pkg)+"_"+x.Name)}, false
 			}
 		}
 	case *CSel:
@@ -495,7 +495,8 @@ func (ex *Exec) runBody(st *State, pc string) {
 				for _, r := range t.Results {
 					vs = append(vs, ex.val(r))
 				}
-				ex.returns = append(ex.returns, retSite{pc: ex.curPC, st: ex.curSt, vals: vs})
+				// a return that follows a call of a noreturn function in its block is dead code: no vacuity guard
+				ex.returns = append(ex.returns, retSite{pc: ex.curPC, st: ex.curSt, vals: vs, viaPanic: ex.curPC == "false"})
 			case *ssa.Panic:
 				pv := ex.val(t.X)
 				ex.pendingPanicVal = &pv
@@ -1081,6 +1082,11 @@ func (eng *Engine) VerifyFunc(fn *ssa.Function, fc *FuncContract) (em *Emitter, 
 				lab = fmt.Sprintf("ens%d", i+1)
 			}
 			parts := eng.splitConjDeep(cl.Expr, fn.Pkg.Pkg.Path(), 0)
+			if strings.HasPrefix(lab, "k.") {
+				// one clause per node kind (generated contracts): at a return site all but one are trivially true;
+				// keeping each as a single obligation keeps the number of solver calls linear in the number of kinds
+				parts = []CExpr{cl.Expr}
+			}
 			for pi, pe := range parts {
 				l := fmt.Sprintf("%s@ret%d", lab, ri+1)
 				if len(parts) > 1 {
@@ -1131,7 +1137,7 @@ func (ex *Exec) regBox(t types.Type) string {
 	return n
 }
 func (ex *Exec) regGlobal(g *ssa.Global) string {
-	n := "G_" + sanitize(g.Pkg.Pkg.Name()+"_"+g.Name())
+	n := "G_" + sanitize(pkgQualifier(g.Pkg.Pkg)+"_"+g.Name())
 	ex.em.heapSorts()[n] = ex.em.sortOf(deref(g.Type()))
 	return n
 }
